@@ -435,10 +435,11 @@ PROPS = {
     },
     "C15": {
         "generated": True,
-        "proof_modules": ["GrolProofs.Props.C15", "GrolProofs.Props.C08", "GrolProofs.Props.C15chunks", "GrolProofs.Props.C15Sim"],
+        "proof_modules": ["GrolProofs.Props.C15", "GrolProofs.Props.C08", "GrolProofs.Props.C15chunks", "GrolProofs.Props.C15Sim", "GrolProofs.Props.C15Lexed"],
         "theorems": ["Grol.C15.witness_unclosed_string_after_statement", "Grol.C15.fixed_empty_lambda_parameter_list",
                      "Grol.C15.fixed_unclosed_comment_ending_in_star_slash", "Grol.C15.witness_file_mode_accepts_unclosed_block",
-                     "Grol.C15.same_tree_partial", "Grol.C15.excluded_class", "Grol.Parser.parseProgram_sim", "Grol.Parser.allSim", "Grol.Parser.allPres",
+                     "Grol.C15.same_tree_partial", "Grol.C15.excluded_class",
+                     "Grol.C15.tokStream_line_eq_asLine", "Grol.C15.endAtB_tokStream", "Grol.C15.same_tree_lexed", "Grol.C15.nc_hypothesis_needed", "Grol.Lexer.next_mode", "Grol.Parser.parseProgram_sim", "Grol.Parser.allSim", "Grol.Parser.allPres",
                      "Grol.C08.parser_never_panics",
                      "Grol.E.C15.evalStatements_append", "Grol.E.C15.evalStatements_append_null", "Grol.E.C15.evalStatements_append_fresh",
                      "Grol.E.C15.evalStatements_init_irrelevant", "Grol.E.C15.evalI_stmts_append", "Grol.E.C15.evalI_stmts_append_outcome",
